@@ -20,6 +20,7 @@ import (
 	"strings"
 	"sync"
 	"sync/atomic"
+	"syscall"
 	"time"
 )
 
@@ -482,6 +483,7 @@ func (r *Run) RunShards(n, procs int) {
 	for i := 0; i < n; i++ {
 		go func(i int) {
 			cmd := exec.Command(os.Args[0], os.Args[1:]...)
+			cmd.SysProcAttr = &syscall.SysProcAttr{Pdeathsig: syscall.SIGKILL}
 			cmd.Env = append(os.Environ(), fmt.Sprintf("VERIF_SHARD=%d/%d", i, n),
 				fmt.Sprintf("VERIF_SHARD_OUT=%s/shard-%s-%d.json", dir, r.Prop, i), fmt.Sprintf("GOMAXPROCS=%d", procs),
 				fmt.Sprintf("VERIF_WORKERS=%d", procs), fmt.Sprintf("VERIF_SCRATCH=%s/shard%d", dir, i))
